@@ -855,6 +855,7 @@ func (f *FormData) Add(key, val string) {
 
 // Set sets a single form field, overriding previously set values.
 func (f *FormData) Set(key, val string) {
+	f.Args.Del(key)
 	f.Args.Set(key, val)
 }
 
